@@ -52,6 +52,11 @@ def make_plan(rng, tier, index):
     plan["monitor"] = True
     plan["logger"] = True
     plan["supply_targets"] = rng.random() < 0.6
+    if rng.random() < 0.3 and trainsim.ADAPTERS[name].has_global_step:
+        # resume: the update cadence must continue from the returned counter, not restart
+        T = plan["chain"][0]["total_timesteps"]
+        cut = rng.randint(max(2, T // 3), T - 2)
+        plan["chain"] = [{"total_timesteps": cut, "total_episodes": None}, {"total_timesteps": T, "total_episodes": None}]
     return plan
 
 
